@@ -42,6 +42,28 @@ fn c01_q_handle_header_capacity() {
     std::mem::forget(r);
 }
 
+/// F: MinidumpHandleDataStream::read with size_of_descriptor == 0 (the header value for which ensure_count_in_bound accepts any count)
+/// I: size_of_header, number_of_descriptors, reserved: full u32; size_of_descriptor fixed to 0; stream length 16; byte order
+/// B: one header, the boundary value of the descriptor size
+/// A: Vec::with_capacity replaced by a recorder of the requested element count
+/// O: no panic (no division by the descriptor size, no unbounded reservation): requested capacity <= stream length
+#[kani::proof]
+#[kani::unwind(3)]
+#[kani::stub(alloc::fmt::format, stub_format)]
+#[kani::stub(std::vec::Vec::with_capacity, CapRecorder::with_capacity)]
+#[kani::stub(encoding_rs::Encoding::decode_without_bom_handling_and_without_replacement, stub_utf16_decode)]
+fn c01_q_handle_zero_descriptor_size() {
+    let mut bytes: [u8; 16] = kani::any();
+    bytes[4] = 0;
+    bytes[5] = 0;
+    bytes[6] = 0;
+    bytes[7] = 0;
+    let r = minidump::MinidumpHandleDataStream::read(&bytes[..], &bytes[..], any_endian(), None);
+    let seen = unsafe { CAP_MAX_SEEN };
+    assert!(seen <= 16);
+    std::mem::forget(r);
+}
+
 /// F: read_stream_list::<MINIDUMP_MEMORY_DESCRIPTOR> allocation argument on every path (incl. paths that later fail)
 /// I: 12 stream bytes symbolic, stream length 0..=12, byte order
 /// B: streams <= 12 bytes (header only; no element fits)
